@@ -551,13 +551,29 @@ impl<'a> Gen<'a> {
         (lo..self.plan.projects.len()).filter(|&p| !self.vers[p].is_empty()).collect()
     }
 
-    fn pick_target(&mut self, cands: &[usize]) -> usize {
-        // favour the sinks (high indices) so that routes meet
-        match self.d.weighted(&[3, 3, 2]) {
-            0 => cands[self.d.below_usize(cands.len())],
-            1 => *cands.last().unwrap(),
-            _ => cands[cands.len() - 1 - self.d.below_usize(cands.len().min(2))],
+    fn pick_target(&mut self, owner: Owner, cands: &[usize]) -> usize {
+        if matches!(owner, Owner::Proj(_)) {
+            // favour the sinks (high indices) so that routes meet
+            match self.d.weighted(&[3, 3, 2]) {
+                0 => cands[self.d.below_usize(cands.len())],
+                1 => *cands.last().unwrap(),
+                _ => cands[cands.len() - 1 - self.d.below_usize(cands.len().min(2))],
+            }
+        } else {
+            // the root and local projects favour the sources (low indices):
+            // more of the graph becomes reachable
+            match self.d.weighted(&[3, 3, 2]) {
+                0 => cands[self.d.below_usize(cands.len())],
+                1 => cands[0],
+                _ => cands[self.d.below_usize(cands.len().min(2))],
+            }
         }
+    }
+
+    /// the release the requirement would pick among what is published now
+    fn highest_match(&self, p: usize, req: &str) -> Option<Version> {
+        let r = VersionReq::parse(req).ok()?;
+        self.vers[p].iter().filter(|x| r.matches(x)).max().cloned()
     }
 
     fn gen_decls(&mut self, owner: Owner, n: usize) -> Vec<Decl> {
@@ -593,12 +609,31 @@ impl<'a> Gen<'a> {
                     _ => None,
                 })
                 .collect();
-            let p = if !again.is_empty() && self.d.chance(1, 3) {
-                again[self.d.below_usize(again.len())]
-            } else {
-                self.pick_target(&cands)
-            };
-            out.push(self.gen_git_decl(owner, p, &used, must_sat));
+            let second = !again.is_empty() && self.d.chance(1, 3);
+            let p = if second { again[self.d.below_usize(again.len())] } else { self.pick_target(owner, &cands) };
+            let mut decl = self.gen_git_decl(owner, p, &used, must_sat);
+            if second || again.contains(&p) {
+                // two declarations of one release with the same properties are
+                // rejected in the root project by design: ask for another
+                // release (or other properties), give up after a few tries
+                let mut clash = true;
+                for _ in 0..5 {
+                    let mine = self.highest_match(p, &decl.req);
+                    clash = out.iter().any(|o| {
+                        matches!(o.target, Target::Git { proj, .. } if proj == p)
+                            && o.props == decl.props
+                            && self.highest_match(p, &o.req) == mine
+                    });
+                    if !clash {
+                        break;
+                    }
+                    decl.req = self.gen_req(p, must_sat);
+                }
+                if clash && matches!(owner, Owner::Root) && !self.d.chance(1, 12) {
+                    continue;
+                }
+            }
+            out.push(decl);
         }
         out
     }
@@ -629,7 +664,20 @@ impl<'a> Gen<'a> {
                         // no second path declaration of one local project
                         let dup = matches!(a.target, Target::Path { local, .. }
                             if out.iter().any(|o| matches!(o.target, Target::Path { local: l2, .. } if l2 == local)));
-                        if !dup {
+                        // (root) mostly avoid a second declaration of the very same release
+                        let clash = matches!(owner, Owner::Root)
+                            && match a.target {
+                                Target::Git { proj: p, .. } => {
+                                    let mine = self.highest_match(p, &a.req);
+                                    out.iter().any(|o| {
+                                        matches!(o.target, Target::Git { proj, .. } if proj == p)
+                                            && o.props == a.props
+                                            && self.highest_match(p, &o.req) == mine
+                                    })
+                                }
+                                _ => false,
+                            };
+                        if !dup && (!clash || self.d.chance(1, 8)) {
                             out.push(a);
                         }
                     }
@@ -739,8 +787,9 @@ impl<'a> Gen<'a> {
     fn resolve_event(&mut self, first: bool) {
         let force = !first && self.d.chance(1, 3);
         let recheck_force = self.d.chance(1, 4);
-        let cli = self.d.chance(1, 8);
-        let cold_twin = !cli && self.d.chance(1, 10);
+        // C31_NO_CLI: mutation runs that build only this crate against a scratch /repo
+        let cli = self.d.chance(1, 12) && std::env::var_os("C31_NO_CLI").is_none();
+        let cold_twin = !cli && self.d.chance(1, 14);
         self.plan.events.push(Event::Resolve { force, recheck_force, cli, cold_twin });
     }
 }
@@ -785,7 +834,7 @@ pub fn generate(d: &mut Draw, thorough: bool) -> Plan {
         let props = if d.chance(1, 4) { vec![("DEPTH".to_string(), Prop::Int(4))] } else { vec![] };
         locals.push(Local { name: format!("q{k}"), dir, props });
     }
-    let strict_det = d.chance(1, 8);
+    let strict_det = d.chance(1, 5);
     let command_backend = d.chance(1, if thorough { 10 } else { 40 });
     let np = projects.len();
     let nl = locals.len();
@@ -814,7 +863,7 @@ pub fn generate(d: &mut Draw, thorough: bool) -> Plan {
         g.plan.events.push(Event::SetLocal { local: k, decls });
     }
     // the root project
-    let n_root = 1 + g.d.weighted(&[3, 5, 4, 2]);
+    let n_root = 1 + g.d.weighted(&[2, 5, 5, 3]);
     let decls = g.gen_decls(Owner::Root, n_root);
     g.root = decls.clone();
     g.plan.events.push(Event::SetRoot { decls });
